@@ -83,6 +83,10 @@ def build_app():
                 if how.startswith('slow-'):
                     _clock['offset'] += {'s': 1.5, 'm': 75.0}[how[5]]      # this request takes seconds, or more than a minute
                     how = how[7:]
+                if how.startswith('wz-'):
+                    # an HTTP error of the underlying library (werkzeug.exceptions / abort()): it carries a code too
+                    import werkzeug.exceptions as wz
+                    raise {'404': wz.NotFound, '403': wz.Forbidden, '400': wz.BadRequest, '413': wz.RequestEntityTooLarge}[how[3:]]()
                 if how == 'boom':
                     raise ValueError('flaky crash')
                 if how == 'deny':
@@ -179,6 +183,8 @@ REQS = [
     # the wall clock steps back while the request runs (an NTP correction, a resumed VM): the request reached its route all the same
     ('200', 'GET', '/flaky/back-s-fine', [('/flaky/<x>', '200')]), ('raised-4xx', 'GET', '/flaky/back-h-deny', [('/flaky/<x>', '403')]),
     ('uncaught', 'GET', '/flaky/back-s-exc-key', [('/flaky/<x>', 'KeyError')]), ('returned-4xx', 'POST', '/flaky/back-h-teapot', [('/flaky/<x>', '418')]),
+    ('uncaught', 'GET', '/flaky/wz-404', [('/flaky/<x>', '404')]), ('uncaught', 'GET', '/flaky/wz-403', [('/flaky/<x>', '403')]),
+    ('uncaught', 'POST', '/flaky/wz-400', [('/flaky/<x>', '400')]), ('uncaught', 'GET', '/flaky/wz-413', [('/flaky/<x>', '413')]),
     # status codes outside the registries
     ('200', 'GET', '/flaky/odd-resp-299', [('/flaky/<x>', '299')]), ('returned-4xx', 'GET', '/flaky/odd-resp-499', [('/flaky/<x>', '499')]),
     ('raised-4xx', 'GET', '/flaky/odd-raise-420', [('/flaky/<x>', '420')]), ('returned-4xx', 'GET', '/flaky/odd-ret-444', [('/flaky/<x>', '444')]),
